@@ -154,7 +154,9 @@ class DictWriter:
                     # nasty python code annotations when writing to yaml.
                     if isinstance(tag, tuple):
                         prop_dict[attr] = list(tag)
-                    elif (tag == []) or tag:  # Even if 'values' is empty, allow '[]'
+                    elif tag is not None and tag != "":
+                        # Only skip unset attributes; an empty 'values' list '[]'
+                        # and an uncertainty of 0 are set and have to be saved.
                         # Custom odML tuples require special handling.
                         if attr == "values" and prop.dtype and \
                                 prop.dtype.endswith("-tuple") and prop.values:
